@@ -1,2 +1,514 @@
-(* C05 proofs for cross-tour cached quantities (Model/CacheX.v). *)
+(* C05 proofs for cross-tour cached quantities (Model/CacheX.v): the solution-level update that writes EVERY tour makes the
+   cached value a function of the bare tours at every hand-over and after every insertion; the re-run loop of
+   accept_solution_state_with_states; the nested clear of CombinedFeatureState::accept_route_state; the shared reload resource. *)
 From VRP Require Import Base.Tac Model.Cache Proofs.CacheP Model.CacheX.
+
+Section PX.
+Variables tour job value : Type.
+Notation feature := (feature tour job value).
+Notation xfeature := (xfeature tour value).
+Notation rctx := (rctx tour value).
+Variable fs : list feature.
+
+(* every per-tour field right, stale or not *)
+Definition fields_ok (r : rctx) : Prop := forall f, In f fs -> field_ok tour job value f r.
+(* the cross-tour field of xf in r equals its value computed from the bare tours ts *)
+Definition x_ok (xf : xfeature) (ts : list tour) (r : rctx) : Prop := rc_state r (xf_key xf) = xf_spec xf ts (rc_tour r).
+(* reading the route contexts gives the function of the bare tours as soon as the per-tour fields it depends on are fresh *)
+Definition x_sound (xf : xfeature) : Prop :=
+  forall rs r, In r rs -> Forall fields_ok rs -> xf_read xf rs r = xf_spec xf (map rc_tour rs) (rc_tour r).
+Definition x_apart (xf : xfeature) : Prop := forall f, In f fs -> f_key f <> xf_key xf.
+
+(* ---------------- one route under x_write ---------------- *)
+Lemma x_write_tour : forall (xf : xfeature) v r, rc_tour (x_write tour value xf v r) = rc_tour r.
+Proof. reflexivity. Qed.
+Lemma x_write_own : forall (xf : xfeature) v r, rc_state (x_write tour value xf v r) (xf_key xf) = v.
+Proof. intros. unfold x_write, set_key. cbn. rewrite Nat.eqb_refl. reflexivity. Qed.
+Lemma x_write_other : forall (xf : xfeature) v r k, k <> xf_key xf -> rc_state (x_write tour value xf v r) k = rc_state r k.
+Proof.
+  intros xf v r k Hk. unfold x_write, set_key. cbn.
+  destruct (Nat.eqb k (xf_key xf)) eqn:E; [apply Nat.eqb_eq in E; congruence|reflexivity].
+Qed.
+Lemma x_write_fields : forall (xf : xfeature) v r, x_apart xf -> fields_ok r -> fields_ok (x_write tour value xf v r).
+Proof.
+  intros xf v r Ha Hok f Hf. unfold field_ok. rewrite x_write_tour, x_write_other; [apply Hok; exact Hf|apply Ha; exact Hf].
+Qed.
+
+(* the element function of x_update (not partial) *)
+Definition x_upd1 (xf : xfeature) (rs : list rctx) (r : rctx) : rctx :=
+  match xf_scope xf with
+  | XAll => x_write tour value xf (xf_read xf rs r) r
+  | XStaleOnly => if rc_stale r then x_write tour value xf (xf_read xf rs r) r else r
+  end.
+Lemma x_update_map : forall xf rs, x_update tour value false xf rs = map (x_upd1 xf rs) rs.
+Proof. reflexivity. Qed.
+Lemma x_update_partial : forall xf rs, x_update tour value true xf rs = rs.
+Proof. reflexivity. Qed.
+
+Lemma x_upd1_tour : forall xf rs r, rc_tour (x_upd1 xf rs r) = rc_tour r.
+Proof. intros. unfold x_upd1. destruct (xf_scope xf); [reflexivity|destruct (rc_stale r); reflexivity]. Qed.
+Lemma x_upd1_other : forall xf rs r k, k <> xf_key xf -> rc_state (x_upd1 xf rs r) k = rc_state r k.
+Proof.
+  intros xf rs r k Hk. unfold x_upd1.
+  destruct (xf_scope xf); [apply x_write_other; exact Hk|destruct (rc_stale r); [apply x_write_other; exact Hk|reflexivity]].
+Qed.
+Lemma x_upd1_fields : forall xf rs r, x_apart xf -> fields_ok r -> fields_ok (x_upd1 xf rs r).
+Proof.
+  intros xf rs r Ha Hok f Hf. unfold field_ok. rewrite x_upd1_tour, x_upd1_other; [apply Hok; exact Hf|apply Ha; exact Hf].
+Qed.
+
+Lemma x_update_tours : forall p xf rs, map rc_tour (x_update tour value p xf rs) = map rc_tour rs.
+Proof.
+  intros [|] xf rs; [reflexivity|]. rewrite x_update_map, map_map. apply map_ext. intros r. apply x_upd1_tour.
+Qed.
+Lemma x_update_fields : forall p xf rs, x_apart xf -> Forall fields_ok rs -> Forall fields_ok (x_update tour value p xf rs).
+Proof.
+  intros [|] xf rs Ha H; [exact H|]. rewrite x_update_map. apply Forall_forall. intros r' Hin.
+  apply in_map_iff in Hin as (r & <- & Hr). apply x_upd1_fields; [exact Ha|]. rewrite Forall_forall in H. apply H. exact Hr.
+Qed.
+(* a field at another key that is a function g of the tour stays so *)
+Definition at_key (k : nat) (g : tour -> option value) (r : rctx) : Prop := rc_state r k = g (rc_tour r).
+Lemma x_update_keeps : forall p xf rs k g, k <> xf_key xf -> Forall (at_key k g) rs -> Forall (at_key k g) (x_update tour value p xf rs).
+Proof.
+  intros [|] xf rs k g Hk H; [exact H|]. rewrite x_update_map. apply Forall_forall. intros r' Hin.
+  apply in_map_iff in Hin as (r & <- & Hr). unfold at_key. rewrite x_upd1_tour, x_upd1_other; [|exact Hk].
+  rewrite Forall_forall in H. apply H. exact Hr.
+Qed.
+(* the update that writes every route makes the field the function of the bare tours *)
+Lemma x_update_spec : forall xf rs, xf_scope xf = XAll -> x_sound xf -> Forall fields_ok rs ->
+  Forall (x_ok xf (map rc_tour rs)) (x_update tour value false xf rs).
+Proof.
+  intros xf rs Hsc Hs Hok. rewrite x_update_map. apply Forall_forall. intros r' Hin.
+  apply in_map_iff in Hin as (r & <- & Hr). unfold x_ok. rewrite x_upd1_tour. unfold x_upd1. rewrite Hsc, x_write_own.
+  apply Hs; assumption.
+Qed.
+
+(* ---------------- a sequence of cross-tour updates, each preceded by a harmless step `pre` ---------------- *)
+Section Pre.
+Variable pre : xfeature -> list rctx -> list rctx.
+Hypothesis pre_tours : forall xf rs, map rc_tour (pre xf rs) = map rc_tour rs.
+Hypothesis pre_fields : forall xf rs, x_apart xf -> Forall fields_ok rs -> Forall fields_ok (pre xf rs).
+Hypothesis pre_keeps : forall xf rs k g, k <> xf_key xf -> Forall (at_key k g) rs -> Forall (at_key k g) (pre xf rs).
+
+Definition x_seq (p : bool) (xl : list xfeature) (rs : list rctx) : list rctx :=
+  fold_left (fun acc xf => x_update tour value p xf (pre xf acc)) xl rs.
+
+Lemma x_seq_tours : forall p xl rs, map rc_tour (x_seq p xl rs) = map rc_tour rs.
+Proof.
+  intros p xl. induction xl as [|xf xl IH]; intros rs; [reflexivity|].
+  unfold x_seq in *. cbn [fold_left]. rewrite IH, x_update_tours, pre_tours. reflexivity.
+Qed.
+Lemma x_seq_fields : forall p xl rs, (forall xf, In xf xl -> x_apart xf) -> Forall fields_ok rs -> Forall fields_ok (x_seq p xl rs).
+Proof.
+  intros p xl. induction xl as [|xf xl IH]; intros rs Ha H; [exact H|].
+  unfold x_seq in *. cbn [fold_left]. apply IH; [intros; apply Ha; right; assumption|].
+  apply x_update_fields; [apply Ha; left; reflexivity|]. apply pre_fields; [apply Ha; left; reflexivity|exact H].
+Qed.
+Lemma x_seq_keeps : forall p xl rs k g, ~ In k (map xf_key xl) -> Forall (at_key k g) rs -> Forall (at_key k g) (x_seq p xl rs).
+Proof.
+  intros p xl. induction xl as [|xf xl IH]; intros rs k g Hk H; [exact H|].
+  unfold x_seq in *. cbn [fold_left]. cbn [map] in Hk. apply IH; [intros Hin; apply Hk; right; exact Hin|].
+  assert (Hne : k <> xf_key xf) by (intros ->; apply Hk; left; reflexivity).
+  apply x_update_keeps; [exact Hne|]. apply pre_keeps; [exact Hne|exact H].
+Qed.
+Lemma x_seq_spec : forall xl rs,
+  NoDup (map xf_key xl) -> (forall xf, In xf xl -> x_apart xf) -> (forall xf, In xf xl -> x_sound xf) -> Forall fields_ok rs ->
+  forall xf, In xf xl -> xf_scope xf = XAll -> Forall (x_ok xf (map rc_tour rs)) (x_seq false xl rs).
+Proof.
+  induction xl as [|x0 xl IH]; intros rs Hnd Ha Hs Hok xf Hin Hsc; [destruct Hin|].
+  cbn [map] in Hnd. inversion Hnd as [|? ? Hni Hnd']; subst.
+  assert (Hok1 : Forall fields_ok (pre x0 rs)) by (apply pre_fields; [apply Ha; left; reflexivity|exact Hok]).
+  assert (Hok2 : Forall fields_ok (x_update tour value false x0 (pre x0 rs)))
+    by (apply x_update_fields; [apply Ha; left; reflexivity|exact Hok1]).
+  unfold x_seq. cbn [fold_left]. fold (x_seq false xl (x_update tour value false x0 (pre x0 rs))).
+  destruct Hin as [->|Hin].
+  - apply (x_seq_keeps false xl _ (xf_key xf) (xf_spec xf (map rc_tour rs))); [exact Hni|].
+    rewrite <- (pre_tours xf rs). apply x_update_spec; [exact Hsc|apply Hs; left; reflexivity|exact Hok1].
+  - rewrite <- (pre_tours x0 rs), <- (x_update_tours false x0 (pre x0 rs)).
+    apply IH; auto; intros; [apply Ha|apply Hs]; right; assumption.
+Qed.
+End Pre.
+
+Definition pre_id : xfeature -> list rctx -> list rctx := fun _ l => l.
+Lemma x_updates_seq : forall p xl rs, x_updates tour value p xl rs = x_seq pre_id p xl rs.
+Proof. reflexivity. Qed.
+Lemma pre_id_tours : forall xf rs, map rc_tour (pre_id xf rs) = map rc_tour rs.
+Proof. reflexivity. Qed.
+Lemma pre_id_fields : forall xf rs, x_apart xf -> Forall fields_ok rs -> Forall fields_ok (pre_id xf rs).
+Proof. intros xf rs _ H. exact H. Qed.
+Lemma pre_id_keeps : forall xf rs k g, k <> xf_key xf -> Forall (at_key k g) rs -> Forall (at_key k g) (pre_id xf rs).
+Proof. intros xf rs k g _ H. exact H. Qed.
+
+(* ---------------- the per-tour round and the loop ---------------- *)
+Lemma unset_fields : forall r, fields_ok r -> fields_ok (unset tour value r).
+Proof. intros r H f Hf. exact (H f Hf). Qed.
+
+Lemma sol_round_tours : forall rs, map rc_tour (sol_round tour job value fs rs) = map rc_tour rs.
+Proof.
+  intros rs. unfold sol_round. rewrite map_map. apply map_ext. intros r.
+  apply (fold_tour tour job value (sol_handler tour job value) (sol_handler_cases tour job value)).
+Qed.
+
+Lemma sol_round_fields : keys_distinct tour job value fs ->
+  (forall f, In f fs -> refreshes_on_handover tour job value f = true) ->
+  forall rs, Forall (CacheOK tour job value fs) rs -> Forall fields_ok (sol_round tour job value fs rs).
+Proof.
+  intros Hk Href rs Hall. apply Forall_forall. intros r1 Hin. unfold sol_round in Hin.
+  apply in_map_iff in Hin as (r & <- & Hr). intros f Hf.
+  destruct (handover_fresh tour job value fs Hk rs
+              (mkRctx (rc_tour (fold_left (fun acc f => sol_handler tour job value f acc) fs r))
+                      (rc_state (fold_left (fun acc f => sol_handler tour job value f acc) fs r)) false) Hall) as [_ H].
+  - unfold accept_solution_state. apply in_map_iff. exists r. split; [reflexivity|exact Hr].
+  - exact (H f Hf (Href f Hf)).
+Qed.
+
+Lemma fields_cache_ok : forall r, fields_ok r -> CacheOK tour job value fs r.
+Proof. intros r H _ f Hf _. apply H. exact Hf. Qed.
+Lemma stale_cache_ok : forall r, rc_stale r = true -> CacheOK tour job value fs r.
+Proof. intros r H H0. congruence. Qed.
+
+Variable xfs : list xfeature.
+Variable edits : list rctx -> option (list rctx).
+(* what the solution-level clean-up may do: a route of the result is an unchanged route or has been changed through route_mut *)
+Definition edits_ok : Prop := forall rs rs', edits rs = Some rs' -> forall r', In r' rs' -> In r' rs \/ rc_stale r' = true.
+
+Definition handed_over (partial : bool) (rs' : list rctx) : Prop :=
+  Forall (fun r' => rc_stale r' = false /\ fields_ok r' /\
+                    (partial = false -> forall xf, In xf xfs -> xf_scope xf = XAll -> x_ok xf (map rc_tour rs') r')) rs'.
+
+Theorem handover_fresh_x :
+  keys_distinct tour job value fs -> NoDup (map xf_key xfs) ->
+  (forall f, In f fs -> refreshes_on_handover tour job value f = true) ->
+  (forall xf, In xf xfs -> x_apart xf) -> (forall xf, In xf xfs -> x_sound xf) -> edits_ok ->
+  forall partial fuel rs rs', Forall (CacheOK tour job value fs) rs ->
+  accept_solution_loop tour job value fs xfs edits partial fuel rs = Some rs' -> handed_over partial rs'.
+Proof.
+  intros Hk Hnd Href Ha Hs He partial fuel. induction fuel as [|k IH]; intros rs rs' Hall Hrun; [discriminate|].
+  cbn [accept_solution_loop] in Hrun.
+  pose proof (sol_round_fields Hk Href rs Hall) as H1.
+  destruct (edits (sol_round tour job value fs rs)) as [rs2|] eqn:Ee.
+  - apply (IH rs2 rs'); [|exact Hrun]. apply Forall_forall. intros r2 Hr2.
+    destruct (He _ _ Ee r2 Hr2) as [Hin|Hst]; [|apply stale_cache_ok; exact Hst].
+    apply fields_cache_ok. rewrite Forall_forall in H1. apply H1. exact Hin.
+  - injection Hrun as <-. rewrite x_updates_seq.
+    set (rs1 := sol_round tour job value fs rs) in *.
+    assert (Ht : map rc_tour (map (unset tour value) (x_seq pre_id partial xfs rs1)) = map rc_tour rs1).
+    { rewrite map_map. change (map (fun x => rc_tour (unset tour value x)) (x_seq pre_id partial xfs rs1))
+        with (map rc_tour (x_seq pre_id partial xfs rs1)). apply (x_seq_tours pre_id pre_id_tours). }
+    unfold handed_over. rewrite Ht. apply Forall_forall. intros r' Hin. apply in_map_iff in Hin as (r & <- & Hr).
+    split; [reflexivity|]. split.
+    + apply unset_fields. assert (Hf : Forall fields_ok (x_seq pre_id partial xfs rs1)).
+      { apply (x_seq_fields pre_id pre_id_fields); [exact Ha|exact H1]. }
+      rewrite Forall_forall in Hf. apply Hf. exact Hr.
+    + intros -> xf Hxf Hsc.
+      assert (Hx : Forall (x_ok xf (map rc_tour rs1)) (x_seq pre_id false xfs rs1)).
+      { apply (x_seq_spec pre_id pre_id_tours pre_id_fields pre_id_keeps); assumption. }
+      rewrite Forall_forall in Hx. exact (Hx r Hr).
+Qed.
+
+(* ---------------- after a single insertion ---------------- *)
+Lemma update_nth_forall : forall (P : rctx -> Prop) g i l, Forall P l -> (forall a, P a -> P (g a)) -> Forall P (update_nth i g l).
+Proof.
+  intros P g i l. revert i. induction l as [|a l IH]; intros i H Hg; [cbn; constructor|].
+  inversion H; subst. destruct i; cbn [update_nth]; constructor; auto.
+Qed.
+Lemma update_nth_map : forall (B : Type) (h : rctx -> B) g i l, (forall a, h (g a) = h a) -> map h (update_nth i g l) = map h l.
+Proof.
+  intros B h g i l Hg. revert i. induction l as [|a l IH]; intros i; [reflexivity|].
+  destruct i; cbn [update_nth map]; [rewrite Hg|rewrite IH]; reflexivity.
+Qed.
+Definition pre_prevent (i : nat) : xfeature -> list rctx -> list rctx := fun xf l => update_nth i (x_prevent tour value xf) l.
+
+Theorem insertion_fresh_x :
+  keys_distinct tour job value fs -> NoDup (map xf_key xfs) ->
+  (forall xf, In xf xfs -> x_apart xf) -> (forall xf, In xf xfs -> x_sound xf) ->
+  forall ins j i rs, insertion_exact tour job value fs ins -> Forall fields_ok rs ->
+  let rs' := accept_insertion_x tour job value fs xfs false ins j i rs in
+  Forall (fun r' => fields_ok r' /\ forall xf, In xf xfs -> xf_scope xf = XAll -> x_ok xf (map rc_tour rs') r') rs'.
+Proof.
+  intros Hk Hnd Ha Hs ins j i rs Hex Hok rs'.
+  set (rs1 := update_nth i (apply_insertion tour job value fs ins j) rs).
+  assert (H1 : Forall fields_ok rs1).
+  { apply update_nth_forall; [exact Hok|]. intros a Hfa. exact (insertion_fresh tour job value fs Hk ins j a Hex Hfa). }
+  assert (Hpt : forall xf l, map rc_tour (pre_prevent i xf l) = map rc_tour l).
+  { intros. apply update_nth_map. reflexivity. }
+  assert (Hpf : forall xf l, x_apart xf -> Forall fields_ok l -> Forall fields_ok (pre_prevent i xf l)).
+  { intros xf l Hxa H. apply update_nth_forall; [exact H|]. intros a Hfa. apply x_write_fields; assumption. }
+  assert (Hpk : forall xf l k g, k <> xf_key xf -> Forall (at_key k g) l -> Forall (at_key k g) (pre_prevent i xf l)).
+  { intros xf l k g Hne H. apply update_nth_forall; [exact H|]. intros a Hq. unfold at_key, x_prevent.
+    rewrite x_write_tour, x_write_other; assumption. }
+  assert (E : rs' = x_seq (pre_prevent i) false xfs rs1) by reflexivity.
+  rewrite E. clear E rs'.
+  assert (Ht : map rc_tour (x_seq (pre_prevent i) false xfs rs1) = map rc_tour rs1) by (apply (x_seq_tours _ Hpt)).
+  rewrite Ht. apply Forall_forall. intros r' Hr'. split.
+  - assert (Hf : Forall fields_ok (x_seq (pre_prevent i) false xfs rs1)) by (apply (x_seq_fields _ Hpf); assumption).
+    rewrite Forall_forall in Hf. exact (Hf r' Hr').
+  - intros xf Hxf Hsc.
+    assert (Hx : Forall (x_ok xf (map rc_tour rs1)) (x_seq (pre_prevent i) false xfs rs1))
+      by (apply (x_seq_spec _ Hpt Hpf Hpk); assumption).
+    rewrite Forall_forall in Hx. exact (Hx r' Hr').
+Qed.
+
+(* ---------------- the nested clear of CombinedFeatureState::accept_route_state ---------------- *)
+Lemma fold_refresh_stale : forall (gs : list feature) r, rc_stale r = true ->
+  rc_stale (fold_left (fun acc f => if f_on_route f then refresh tour job value f acc else acc) gs r) = true.
+Proof.
+  intros gs r H. apply (fold_stale tour job value (fun f r => if f_on_route f then refresh tour job value f r else r)
+                                   (route_handler_cases tour job value)). exact H.
+Qed.
+
+Lemma fold_refresh_other : forall (gs : list feature) r k, ~ In k (map f_key gs) ->
+  rc_state (fold_left (fun acc f => if f_on_route f then refresh tour job value f acc else acc) gs r) k = rc_state r k.
+Proof.
+  induction gs as [|g gs IH]; intros r k Hk; [reflexivity|]. cbn [fold_left]. cbn [map] in Hk.
+  rewrite IH; [|intros Hin; apply Hk; right; exact Hin].
+  destruct (f_on_route g); [|reflexivity]. unfold refresh, set_key. cbn.
+  destruct (Nat.eqb k (f_key g)) eqn:E; [apply Nat.eqb_eq in E; exfalso; apply Hk; left; congruence|reflexivity].
+Qed.
+Lemma fold_prevent_other : forall (xs : list xfeature) r k, ~ In k (map xf_key xs) ->
+  rc_state (fold_left (fun acc xf => x_prevent tour value xf acc) xs r) k = rc_state r k.
+Proof.
+  induction xs as [|x xs IH]; intros r k Hk; [reflexivity|]. cbn [fold_left]. cbn [map] in Hk.
+  rewrite IH; [|intros Hin; apply Hk; right; exact Hin]. unfold x_prevent. apply x_write_other.
+  intros ->. apply Hk. left. reflexivity.
+Qed.
+
+(* a goal [f; Combined gs xs]: after GoalContext::accept_route_state on a stale tour the flag is clear and the field of f,
+   written a moment ago, is gone *)
+Theorem nested_clear_wipes : forall (f : feature) gs xs r,
+  rc_stale r = true -> ~ In (f_key f) (map f_key gs) -> ~ In (f_key f) (map xf_key xs) ->
+  let r' := goal_accept_route_state tour job value [EOne f; ECombined gs xs] r in
+  rc_stale r' = false /\ rc_tour r' = rc_tour r /\ rc_state r' (f_key f) = None.
+Proof.
+  intros f gs xs r Hst Hg Hx r'. subst r'. unfold goal_accept_route_state. rewrite Hst. cbn [fold_left entry_route].
+  split; [reflexivity|].
+  set (r1 := if f_on_route f then refresh tour job value f (mkRctx (rc_tour r) (fun _ => None) true)
+             else mkRctx (rc_tour r) (fun _ => None) true).
+  assert (Hs1 : rc_stale r1 = true) by (subst r1; destruct (f_on_route f); reflexivity).
+  assert (Ht1 : rc_tour r1 = rc_tour r) by (subst r1; destruct (f_on_route f); reflexivity).
+  unfold accept_route_state_x. rewrite Hs1. cbn [unset rc_tour rc_state]. split.
+  - rewrite <- Ht1.
+    assert (Hp : forall r0 : rctx, rc_tour (fold_left (fun acc xf => x_prevent tour value xf acc) xs r0) = rc_tour r0).
+    { clear. induction xs as [|x xs IH]; intros r0; [reflexivity|]. cbn [fold_left]. rewrite IH. reflexivity. }
+    rewrite Hp.
+    rewrite (fold_tour tour job value (fun f r => if f_on_route f then refresh tour job value f r else r)
+                       (route_handler_cases tour job value)). reflexivity.
+  - rewrite fold_prevent_other; [|exact Hx]. rewrite fold_refresh_other; [|exact Hg]. reflexivity.
+Qed.
+
+(* a goal without a combined state is the protocol of Model/Cache.v *)
+Theorem goal_accept_route_state_flat : forall (gs : list feature) r,
+  goal_accept_route_state tour job value (map EOne gs) r = accept_route_state tour job value gs r.
+Proof.
+  intros gs r. unfold goal_accept_route_state, accept_route_state. destruct (rc_stale r); [|reflexivity].
+  unfold unset. f_equal.
+  - f_equal. generalize (mkRctx (rc_tour r) (fun _ : nat => @None value) true).
+    induction gs as [|g gs IH]; intros r0; [reflexivity|]. cbn [map fold_left entry_route]. apply IH.
+  - f_equal. generalize (mkRctx (rc_tour r) (fun _ : nat => @None value) true).
+    induction gs as [|g gs IH]; intros r0; [reflexivity|]. cbn [map fold_left entry_route]. apply IH.
+Qed.
+End PX.
+
+(* ================= the shared reload resource ================= *)
+(* get_route_intervals: every interval starts inside the tour (get_activity_by_idx cannot panic on fresh intervals) *)
+Lemma ivs_from_range : forall acts idx last start, (start <= idx)%nat -> (idx + length acts = S last)%nat ->
+  Forall (fun se => (fst se <= last)%nat) (ivs_from idx last acts start).
+Proof.
+  induction acts as [|a rest IH]; intros idx last start Hs Hl; [constructor|].
+  cbn [ivs_from length] in *.
+  destruct (is_marker a) eqn:Em; destruct (Nat.eqb idx last) eqn:El; cbn [orb andb].
+  - apply Nat.eqb_eq in El. subst idx. destruct rest; [|cbn [length] in Hl; lia].
+    cbn [ivs_from]. repeat constructor; cbn [fst]; lia.
+  - apply Nat.eqb_neq in El. constructor; [cbn [fst]; lia|]. apply IH; lia.
+  - apply Nat.eqb_eq in El. subst idx. destruct rest; [|cbn [length] in Hl; lia].
+    cbn [ivs_from]. repeat constructor; cbn [fst]; lia.
+  - apply IH; lia.
+Qed.
+
+Lemma intervals_in_range : forall t, Forall (fun se => (fst se < length t)%nat) (intervals_of t).
+Proof.
+  intros t. unfold intervals_of. destruct t as [|a t]; [constructor|].
+  assert (H := ivs_from_range (a :: t) 0 (length (a :: t) - 1) 0 (le_n 0)).
+  cbn [length] in *. eapply Forall_impl; [|apply H; lia]. intros se Hse. cbn beta in Hse. lia.
+Qed.
+
+Lemma route_contribs_fresh : forall t ivs, Forall (fun se => (fst se < length t)%nat) ivs ->
+  route_contribs t ivs = Some (flat_map (contrib1 t) ivs).
+Proof.
+  intros t ivs H. induction H as [|[s e] ivs Hs _ IH]; [reflexivity|].
+  cbn [route_contribs flat_map fst] in *. rewrite IH. unfold contrib1. cbn [fst snd].
+  destruct (nth_error t s) as [a|] eqn:En; [|apply nth_error_None in En; lia].
+  destruct (sa_res a) as [[cap id]|]; reflexivity.
+Qed.
+
+Lemma avail_entries_fresh : forall total t ivs, Forall (fun se => (fst se < length t)%nat) ivs ->
+  avail_entries total t ivs = Some (map (entry1 (fun id => lookup id total) t) ivs).
+Proof.
+  intros total t ivs H. induction H as [|[s e] ivs Hs _ IH]; [reflexivity|].
+  cbn [avail_entries map fst] in *. rewrite IH. unfold entry1. cbn [fst].
+  destruct (nth_error t s) as [a|] eqn:En; [reflexivity|apply nth_error_None in En; lia].
+Qed.
+
+(* the HashMap of totals *)
+Lemma lookup_add_same : forall id d m, lookup id (add_entry id d m) = Some (match lookup id m with Some v => v | None => 0 end + d).
+Proof.
+  intros id d m. induction m as [|[k v] m IH]; cbn [add_entry lookup].
+  - rewrite Z.eqb_refl. reflexivity.
+  - destruct (k =? id) eqn:E; cbn [lookup]; rewrite E; [reflexivity|exact IH].
+Qed.
+Lemma lookup_add_other : forall id id' d m, id' <> id -> lookup id (add_entry id' d m) = lookup id m.
+Proof.
+  intros id id' d m Hne. induction m as [|[k v] m IH]; cbn [add_entry lookup].
+  - destruct (id' =? id) eqn:E; [apply Z.eqb_eq in E; congruence|reflexivity].
+  - destruct (k =? id') eqn:E; cbn [lookup].
+    + apply Z.eqb_eq in E. subst k. destruct (id' =? id) eqn:E2; [apply Z.eqb_eq in E2; congruence|reflexivity].
+    + rewrite IH. reflexivity.
+Qed.
+
+Lemma lookup_fold : forall id cs m,
+  lookup id (fold_left (fun m p => add_entry (fst p) (snd p) m) cs m) =
+  match lookup id m with
+  | Some v => Some (v + sum_for id cs)
+  | None => if existsb (fun p => fst p =? id) cs then Some (sum_for id cs) else None
+  end.
+Proof.
+  intros id cs. induction cs as [|[k d] cs IH]; intros m; cbn [fold_left existsb sum_for fold_right fst snd].
+  - destruct (lookup id m); [f_equal; lia|reflexivity].
+  - rewrite IH. fold (sum_for id cs). destruct (k =? id) eqn:E.
+    + apply Z.eqb_eq in E. subst k. rewrite lookup_add_same. cbn [orb].
+      destruct (lookup id m); f_equal; lia.
+    + apply Z.eqb_neq in E. rewrite lookup_add_other; [|exact E]. cbn [orb]. reflexivity.
+Qed.
+
+Lemma lookup_totals : forall id cs,
+  lookup id (totals cs) = if existsb (fun p => fst p =? id) cs then Some (sum_for id cs) else None.
+Proof. intros. unfold totals. rewrite lookup_fold. reflexivity. Qed.
+
+Notation srctx := (rctx (list sact) xval).
+
+Lemma cached_fresh : forall r : srctx, fields_ok _ _ _ shared_table r -> cached_intervals r = intervals_of (rc_tour r).
+Proof.
+  intros r H. specialize (H intervals_feature (or_introl eq_refl)). unfold field_ok in H.
+  cbn [f_key f_compute intervals_feature] in H. unfold cached_intervals. rewrite H. reflexivity.
+Qed.
+
+Lemma all_contribs_fresh : forall rs : list srctx, Forall (fields_ok _ _ _ shared_table) rs ->
+  all_contribs rs = Some (flat_map contribs_spec (map rc_tour rs)).
+Proof.
+  intros rs H. induction H as [|r rs Hr _ IH]; [reflexivity|].
+  cbn [all_contribs map flat_map]. rewrite IH, (cached_fresh r Hr), route_contribs_fresh; [reflexivity|apply intervals_in_range].
+Qed.
+
+Theorem shared_read_sound : forall scope, x_sound _ _ _ shared_table (shared_feature scope).
+Proof.
+  intros scope rs r Hin Hok. cbn [xf_read xf_spec shared_feature]. unfold shared_read, avail_spec.
+  rewrite (all_contribs_fresh rs Hok).
+  assert (Hr : fields_ok _ _ _ shared_table r) by (rewrite Forall_forall in Hok; apply Hok; exact Hin).
+  rewrite (cached_fresh r Hr), avail_entries_fresh; [|apply intervals_in_range].
+  do 2 f_equal. unfold avail_spec_entries. apply map_ext. intros se. unfold entry1.
+  destruct (nth_error (rc_tour r) (fst se)) as [a|]; [|reflexivity].
+  destruct (sa_res a) as [[cap id]|]; [|reflexivity].
+  rewrite lookup_totals. reflexivity.
+Qed.
+
+Lemma shared_table_keys : keys_distinct _ _ _ shared_table.
+Proof. unfold keys_distinct. cbn. repeat constructor. intros []. Qed.
+Lemma shared_table_refreshes : forall f, In f shared_table -> refreshes_on_handover _ _ _ f = true.
+Proof. intros f [<-|[]]. reflexivity. Qed.
+Lemma shared_apart : forall scope xf, In xf [shared_feature scope] -> x_apart _ _ _ shared_table xf.
+Proof. intros scope xf [<-|[]] f [<-|[]]. cbn. discriminate. Qed.
+
+(* at every hand-over (whatever the marker clean-up did in the abandoned rounds) and in a complete solution: no tour is stale,
+   the cached reload intervals are those of the tour, and the cached availability of every reload interval of every tour is the
+   function `avail_spec` of the bare tours of the handed-over solution *)
+Theorem shared_handover_fresh : forall edits, edits_ok _ _ edits ->
+  forall fuel (rs rs' : list srctx), Forall (CacheOK _ _ _ shared_table) rs ->
+  accept_solution_loop _ _ _ shared_table shared_shipped edits false fuel rs = Some rs' ->
+  Forall (fun r' => rc_stale r' = false /\
+                    rc_state r' K_INTERVALS = Some (XIntervals (intervals_of (rc_tour r'))) /\
+                    rc_state r' K_SHARED = avail_spec (map rc_tour rs') (rc_tour r')) rs'.
+Proof.
+  intros edits He fuel rs rs' Hall Hrun.
+  assert (H := handover_fresh_x _ _ _ shared_table shared_shipped edits shared_table_keys
+                 ltac:(cbn; repeat constructor; intros []) shared_table_refreshes (shared_apart XAll)
+                 ltac:(intros xf [<-|[]]; apply shared_read_sound) He false fuel rs rs' Hall Hrun).
+  unfold handed_over in H. eapply Forall_impl; [|exact H]. cbn beta. intros r' (Hs & Hf & Hx).
+  split; [exact Hs|]. split.
+  - exact (Hf intervals_feature (or_introl eq_refl)).
+  - exact (Hx eq_refl (shared_feature XAll) (or_introl eq_refl) eq_refl).
+Qed.
+
+(* after every single insertion into a complete solution whose per-tour fields were fresh *)
+Theorem shared_insertion_fresh : forall ins j i (rs : list srctx),
+  insertion_exact _ _ _ shared_table ins -> Forall (fields_ok _ _ _ shared_table) rs ->
+  let rs' := accept_insertion_x _ _ _ shared_table shared_shipped false ins j i rs in
+  Forall (fun r' => rc_state r' K_INTERVALS = Some (XIntervals (intervals_of (rc_tour r'))) /\
+                    rc_state r' K_SHARED = avail_spec (map rc_tour rs') (rc_tour r')) rs'.
+Proof.
+  intros ins j i rs Hex Hok rs'.
+  assert (H := insertion_fresh_x _ _ _ shared_table shared_shipped shared_table_keys
+                 ltac:(cbn; repeat constructor; intros []) (shared_apart XAll)
+                 ltac:(intros xf [<-|[]]; apply shared_read_sound) ins j i rs Hex Hok).
+  cbn zeta in H. eapply Forall_impl; [|exact H]. cbn beta. intros r' (Hf & Hx). split.
+  - exact (Hf intervals_feature (or_introl eq_refl)).
+  - exact (Hx (shared_feature XAll) (or_introl eq_refl) eq_refl).
+Qed.
+
+(* what that function is: capacity of the resource at the first activity of the interval minus the demand of ALL reload
+   intervals of ALL tours drawing from the same resource *)
+Theorem shared_avail_char : forall ts t s e a cap id,
+  In t ts -> In (s, e) (intervals_of t) -> nth_error t s = Some a -> sa_res a = Some (cap, id) ->
+  In (s, Some (cap - sum_for id (flat_map contribs_spec ts))) (avail_spec_entries ts t).
+Proof.
+  intros ts t s e a cap id Ht Hse Hn Hres. unfold avail_spec_entries. apply in_map_iff. exists (s, e). split; [|exact Hse].
+  unfold entry1. cbn [fst]. rewrite Hn, Hres. unfold resource_total.
+  assert (Hex : existsb (fun p => fst p =? id) (flat_map contribs_spec ts) = true).
+  { apply existsb_exists. exists (id, interval_demand t s e). split; [|cbn [fst]; apply Z.eqb_refl].
+    apply in_flat_map. exists t. split; [exact Ht|]. unfold contribs_spec. apply in_flat_map. exists (s, e).
+    split; [exact Hse|]. unfold contrib1. cbn [fst snd]. rewrite Hn, Hres. left. reflexivity. }
+  rewrite Hex. reflexivity.
+Qed.
+
+(* ---------------- witnesses ---------------- *)
+Definition S0 : sact := mkSA (-1) false None None.
+Definition J (i d : Z) : sact := mkSA i false None (Some d).
+Definition R (i cap id : Z) : sact := mkSA i true (Some (cap, id)) None.
+(* two tours reloading from resource 0 (capacity 5); job 3 is loaded at the reload of the first tour *)
+Definition wt1 : list sact := [S0; J 1 1; R 100 5 0; J 2 1; J 3 2; S0].
+Definition wt2 : list sact := [S0; J 4 1; R 101 5 0; J 5 1; S0].
+Definition w_remove (id : Z) (t : list sact) : list sact := filter (fun a => negb (sa_job a =? id)) t.
+Definition w_start (xfs : list (xfeature (list sact) xval)) : option (list srctx) :=
+  accept_solution_loop _ _ _ shared_table xfs no_edits false 3
+    [mkRctx wt1 (fun _ => None) true; mkRctx wt2 (fun _ => None) true].
+(* a search step takes job 3 out of the first tour (route_mut) and hands over; the second tour is not touched *)
+Definition w_step (xfs : list (xfeature (list sact) xval)) : option (list srctx) :=
+  match w_start xfs with
+  | Some [r1; r2] => accept_solution_loop _ _ _ shared_table xfs no_edits false 3 [route_mut _ _ (w_remove 3) r1; r2]
+  | _ => None
+  end.
+
+(* with the second pass restricted to stale tours (seeded C05-5, mutant C05-7) the untouched tour keeps the outdated value *)
+Theorem shared_stale_only_refuted :
+  exists r1 r2, w_step shared_stale_only = Some [r1; r2] /\ rc_stale r2 = false /\ rc_tour r2 = wt2 /\
+    rc_state r2 K_SHARED = Some (XAvail [(0%nat, None); (2%nat, Some 1)]) /\
+    avail_spec [rc_tour r1; rc_tour r2] (rc_tour r2) = Some (XAvail [(0%nat, None); (2%nat, Some 3)]).
+Proof. eexists. eexists. split; [vm_compute; reflexivity|]. vm_compute. auto. Qed.
+
+(* the same history with the code as it is *)
+Theorem shared_step_shipped :
+  exists r1 r2, w_step shared_shipped = Some [r1; r2] /\ rc_stale r2 = false /\ rc_tour r2 = wt2 /\
+    rc_state r1 K_SHARED = Some (XAvail [(0%nat, None); (2%nat, Some 3)]) /\
+    rc_state r2 K_SHARED = Some (XAvail [(0%nat, None); (2%nat, Some 3)]) /\
+    rc_state r2 K_INTERVALS = Some (XIntervals [(0%nat, 1%nat); (2%nat, 4%nat)]).
+Proof. eexists. eexists. split; [vm_compute; reflexivity|]. vm_compute. auto 10. Qed.
+
+(* finding C05-F2: GoalContext::accept_route_state on a goal [transport-like feature; CombinedFeatureState [reload intervals;
+   shared resource]]: the tour is flagged fresh, the field of the first feature is gone, its recomputation is not *)
+Theorem nested_clear_refuted :
+  let r' := goal_accept_route_state _ _ _ shared_goal (mkRctx wt1 (fun _ => None) true) in
+  rc_stale r' = false /\ rc_state r' K_TOTAL = None /\ f_compute total_feature (rc_tour r') = Some (XTotal 6) /\
+  ~ CacheOK _ _ _ [total_feature; intervals_feature] r'.
+Proof.
+  cbn zeta. split; [reflexivity|]. split; [reflexivity|]. split; [reflexivity|].
+  intros H. specialize (H eq_refl total_feature (or_introl eq_refl) eq_refl). unfold field_ok in H. vm_compute in H. discriminate.
+Qed.
